@@ -22,7 +22,8 @@ RULE = (
     "all of its task_end events; sum of task_end.num_tasks per operation == primitive_op.num_tasks == len(list(pipeline.mappable)); "
     "FinalizedPlan.num_tasks == sum over operations; the set of operations in the events == operations of the plan; on the in-process "
     "executors the task bodies actually invoked are counted per operation (pipelines wrapped by a counting function) and must equal the "
-    "advertised number, each task input once; a second registered callback sees the same events. "
+    "advertised number, each task input once; a second registered callback sees the same events; in half of the cases the same arrays are computed a second time in the same process and "
+    "judged again. "
     "Non-trivial = the plan has an operation whose task list is not the plain chunk grid of a single output (region store, "
     "multi-output, rechunk, fused with other counts) or >= 2 operations in one generation; distinct = canonical JSON."
 )
@@ -44,6 +45,9 @@ def case_strategy(opts=None, max_ops=5, executors=None):
             "executor": e,
             "optimize": draw(st.booleans()),
             "sinks": draw(S.sinks_strategy(prog, classes=("fresh", "existing-same", "region-aligned", "region-aligned", "sharded"), max_sinks=2)) if draw(st.integers(0, 2)) == 0 else [],
+            # the same arrays are computed a second time in the same process (a re-run, another executor, a retry of the whole call):
+            # the advertised counts must hold for every execution, not only the first
+            "twice": draw(st.booleans()),
         }
         if e in ("threads", "processes"):
             case["parallel"] = draw(st.booleans())
@@ -159,6 +163,23 @@ def check_case(case) -> Outcome:
                 return Outcome(labels=tuple(labels))
         for code, msg in check_events(cb.events, fp):
             fails.append(Failure(code, msg))
+        if case.get("twice") and not fails:
+            labels.add("computed-twice")
+            with warnings.catch_warnings():
+                warnings.simplefilter("ignore")
+                cb3 = H.RecordingCallback()
+                ex3 = H.CountingExecutor(H.make_executor("single-threaded"))
+                try:
+                    fp3 = cubed.plan(*outs, optimize_graph=case["optimize"])
+                    cubed.compute(*outs, executor=ex3, callbacks=[cb3], optimize_graph=case["optimize"], _return_in_memory_array=False)
+                    for code, msg in check_events(cb3.events, fp3):
+                        fails.append(Failure("second-run:" + code, msg))
+                    for n, d in fp3.dag.nodes(data=True):
+                        if d.get("type") == "op" and "primitive_op" in d and len(ex3.calls.get(n, [])) != d["primitive_op"].num_tasks:
+                            fails.append(Failure(f"second-run:tasks-run-vs-advertised:{d.get('op_name', '?')}", f"{n}: second execution ran {len(ex3.calls.get(n, []))} task bodies, the plan advertises {d['primitive_op'].num_tasks}"))
+                            break
+                except Exception as e:
+                    labels.add(f"second-run-failed:{type(e).__name__}")
         # every registered callback sees the same events
         strip = lambda evs: sorted((e[0], e[1], e[2] if len(e) > 2 and e[0] == "task_end" else None) for e in evs)  # noqa: E731
         if strip(cb.events) != strip(cb2.events):
